@@ -12,12 +12,17 @@ TECHNIQUE = ("Coq: generic deadlock-freedom theorem for rank-ordered RW locks wi
 LEVEL_TEXT = ("C16_order_no_deadlock: discipline D (no re-acquisition; rank increasing, or under renameMu.W only childMu's; childMu held across a request only by "
               "gate holders) excludes every all-blocked state, with blocked = Go RWMutex semantics incl. pending-writer preference. C16_edges_ok/C16_edges_sound: every "
               "acquisition site of server.go/path_tree.go/handlers.go (transitively through calls/closures) satisfies D. C16_guarded: every access to the shared maps "
-              "holds its mutex. C16_isolation_frame (+ _partial instance): disjoint clients' replies are independent of the interleaving.")
+              "holds its mutex. C16_weak_refs_ok: a fidRef found through a path node's childRefs (possibly dying) is only ever acquired with TryIncRef. "
+              "C16_isolation_frame (+ _partial instance): disjoint clients' replies are independent of the interleaving.")
 LEVEL_NOTE = ("Data-race freedom and 'no runtime abort' are runtime notions: what is proved is lock discipline on the generated tables (8 guarded maps incl. aliases, "
               "fidRef.opened); the clause 'no data race reported by the race detector' rests on `go test -race` runs of the workload in EVERY tier (supporting evidence, "
               "4 runs quick / 25 thorough) and of the qids.Mapper test; other shared fields (pathNode.deleted, fidRef.refs via atomics, mode/openFlags/pendingXattr) are covered by the race runs only. "
               "DELEGATION: the wait/notify half of 'no lost wake-up' (Tflush waiting for a tag, ClearTag closing the channel, stop() waiting for pendingWg) is decided by "
               "C06/C14's model and checks; C16's model has locks only (wait_ok: waits hold no lock) and observes the symptom end to end (Tflush traffic in the workload, issued == answered). "
+              "Recursive read-locking of renameMu (a handler calling doWalk inside safelyRead) is refused by C16_edges_ok (the plan is followed through closures) and shown concretely by the "
+              "queued-writer probes (reader parked in the backend, writer observed queuing via RWMutex.TryRLock, then released; c16_queued_test.go). "
+              "C16_weak_refs_ok is a table obligation (no refcount model in C16's cone; the lifecycle clauses closed-once / no-use-after-close are C05's theorems) and the monitor's lifecycle predicate "
+              "(log_ok: nothing enters on a handle whose Close has started) decides the gated rename-vs-parked-Close probes. "
               "C16_no_deadlock_sites is a FRAGMENT theorem (each thread runs the plan of ONE site); the lift to whole handler runs is not proved.  The depth ranks of opMu/childMu assume the path tree does not change shape while a nested "
               "acquisition is in progress (renames hold renameMu for writing). Isolation: the Coq instance is a path store without cross-subtree rename (_partial); "
               "the real server is covered by the concurrent-vs-alone differential. Trusted: go2coq LockGen, the lock semantics of Locks/Locks.v, the harness backend.")
@@ -32,11 +37,11 @@ TRUSTED_BASE = [
     "Coq 8.16.1 kernel, vm_compute (table checks, cases evaluation)",
     "axioms: none (Print Assumptions: closed under the global context)",
     "go2coq LockGen (tools/go2coq/lockgen.go, lockgen_interp.go)",
-    "harness: harness/p9/vhgate_backend_test.go (in-memory path FS with monitor), c16_workload_test.go, harness/fsimpl/qids/c16_mapper_test.go; the p9 client as driver; Go race detector (supporting)",
+    "harness: harness/p9/vhgate_backend_test.go (in-memory path FS with monitor), c16_workload_test.go, c16_queued_test.go (white-box Server.renameMu.TryRLock to observe a queued writer), harness/fsimpl/qids/c16_mapper_test.go; the p9 client as driver; Go race detector (supporting)",
     "props/C16.py to_case(): numbering of nodes/handles of the monitor log, translation to Coq cases",
 ]
 
-FILES = ["vh_common_test.go", "vhgate_backend_test.go", "c16_workload_test.go"]
+FILES = ["vh_common_test.go", "vhgate_backend_test.go", "c16_workload_test.go", "c16_queued_test.go"]
 HEADER = ("From Coq Require Import String List Bool NArith.\nFrom P9V Require Import Locks.Sym Locks.LockCases.\nImport ListNotations.\nOpen Scope string_scope.\nOpen Scope N_scope.\n")
 
 
@@ -135,7 +140,10 @@ def run(ctx):
             ctx.violation("C16:leak:%s" % o["name"], "%d File(s) were never closed after the connection went away (references taken for a rename notification leaked): %s" % (o["unclosed"], o["what"]), o)
     if st and not st[0]["answered"]:
         ctx.violation("C16:stall", "a request on another fid was not answered (3 x 1.1 s) while the backend held the Close of a Tclunk on the same connection", st[0])
-    if rc == 0 and (not st or not rd or len(pr) < 6):
+    qw = [o for o in pr if o["name"].startswith("queued-writer:")]
+    if qw and not any(o.get("writer_queued") for o in qw):
+        ctx.harness_broken("queued-writer probes: no writer was ever seen queuing for the rename lock (white-box TryRLock observation broken?)", str(qw))
+    if rc == 0 and (not st or not rd or len(pr) < 9):
         ctx.harness_broken("targeted probes did not all report (stall=%d renamedisc=%d probes=%d)" % (len(st), len(rd), len(pr)), out)
     mp = [o for o in obs4 if o.get("kind") == "mapper"]
     if "concurrent map" in out4 or "DATA RACE" in out4 or (mp and not mp[0]["consistent"]):
